@@ -715,6 +715,30 @@ where
                 let claimed = it.len();
                 let mut items: Vec<String> = it.map(|i| i.render()).collect();
                 assert_eq!(claimed, items.len(), "Iter::len disagrees with the items yielded");
+                // the same items must come out whatever mix of next() and the folding adapters
+                // (for_each, count, ...) consumes the iterator, and len() must track what is left
+                if !items.is_empty() {
+                    let n = items.len();
+                    let mut ks = vec![1, 2, n / 2, n - 1];
+                    ks.sort();
+                    ks.dedup();
+                    for k in ks.into_iter().filter(|k| *k <= n) {
+                        let mut it = f.iter_mut();
+                        for _ in 0..k {
+                            it.next();
+                        }
+                        let left = it.len();
+                        let mut rest: Vec<String> = vec![];
+                        it.for_each(|i| rest.push(i.render()));
+                        assert_eq!(left, rest.len(), "Iter::len after {k} calls to next disagrees with the items still yielded");
+                        assert_eq!(&items[k..], &rest[..], "items after {k} calls to next differ from the tail of a full iteration");
+                        let mut it = f.iter_mut();
+                        for _ in 0..k {
+                            it.next();
+                        }
+                        assert_eq!(it.count(), n - k, "count() after {k} calls to next");
+                    }
+                }
                 items.sort();
                 inv.views.push(format!("0#{}{{{}}}", items.len(), items.join(" ")));
                 // random access probes on the first known ids
